@@ -4,6 +4,7 @@ import collections
 import hashlib
 from typing import Any
 
+from pycoin.coins.SolutionChecker import ScriptError
 from pycoin.encoding.hash import hash160
 from pycoin.encoding.hexbytes import b2h
 
@@ -66,9 +67,13 @@ class ContractAPI(object):
                 return r
             if pc1 >= len(script) or pc2 >= len(template):
                 break
-            opcode1, data1, pc1, is_ok1 = self._script_tools.scriptStreamer.get_opcode(
-                script, pc1
-            )
+            try:
+                # a non-minimal push is a different script from the template's
+                opcode1, data1, pc1, is_ok1 = self._script_tools.scriptStreamer.get_opcode(
+                    script, pc1, verify_minimal_data=True
+                )
+            except ScriptError:
+                break
             opcode2, data2, pc2, is_ok2 = self._script_tools.scriptStreamer.get_opcode(
                 template, pc2
             )
@@ -178,7 +183,12 @@ class ContractAPI(object):
         m = opcode + (1 - OP_1)
         sec_keys = []
         while pc < len(script):
-            opcode, data, pc, is_ok = scriptStreamer.get_opcode(script, pc)
+            try:
+                opcode, data, pc, is_ok = scriptStreamer.get_opcode(
+                    script, pc, verify_minimal_data=True
+                )
+            except ScriptError:
+                return None
             size = len(data) if data else 0
             if size < 33 or size > 120:
                 break
